@@ -797,7 +797,9 @@ func c19Gen(g *hx.Gen) {
 	for _, set := range []string{"F1,W,W,F2", "W,F1,F2,W", "F1,X2.7,W,W", "F1,F2,F3,W", "Fn,W,F1,W"} {
 		letters := []byte{'a', 'b', 'c', 'd'}
 		multisetPerms(letters, []int{2, 2, 2, 2}, func(s string) bool {
-			g.Casef("pp 000 %s %s", set, s)
+			if g.Thorough() || g.Chance(0.6) {
+				g.Casef("pp 000 %s %s", set, s)
+			}
 			return !g.Done()
 		})
 	}
@@ -864,7 +866,7 @@ func c19Gen(g *hx.Gen) {
 	}
 	// several producers and collectors: shuffled complete schedules (every actor gets the
 	// steps it needs, in a random order) and random schedules, with and without Stop
-	npg := g.Scale(3000, 50000)
+	npg := g.Scale(2500, 50000)
 	for k := 0; k < npg && !g.Done(); k++ {
 		t := g.Pick(1, 2, 2, 3)
 		nprod := g.Pick(1, 2, 2, 3)
